@@ -201,12 +201,12 @@ def _chunk(args):
     seen = set()
     for ln in lines:
         t = core.seqify(json.loads(ln))
-        check_impulse(col, t)
+        core.guarded(col, lambda: check_impulse(col, t), f"fdd.SD_est[{t['cfg']['method']}]", f"configuration {t['cfg']}", {"transition": t})
         c = t["cfg"]
         key = (c["nall"], c["nref"], c["nxseg"], c["ovl"], c["method"], c["fsn"], c["fsd"])
         if key not in seen and c["ci"] == 0 and c["rj"] == 0 and c["pi"] == 2 and c["pj"] == 2:
             seen.add(key)
-            check_config(col, t, rng)
+            core.guarded(col, lambda: check_config(col, t, rng), f"fdd.SD_est[{c['method']}]", f"configuration {c}", {"transition": t, "config_level": True})
         col.traces += 1
     return col
 
